@@ -167,3 +167,36 @@ PROPS["C16"] = _std(
     "exhaustive alphabet and sequence-shape enumeration against reference wire forms and the native decoders",
     lambda tier: [R("simd")] if tier == "quick" else [R("simd"), R("serial32"), R("fiat64"), R("avx512")],
 )
+
+
+PROPS["C13"] = _std(
+    "model_checking",
+    "explicit-state BFS over batches built by append / duplicate / swap from a menu of honest and singly corrupted entries (key->other honest key, message bit, R->other honest R, R undecodable, S+l, S->other honest S): every state = verify_batch called twice, compared with the conjunction of the model's single verifications (and the real single verifier with the model), "
+    "plus every slice-length triple for short batches; large batches at n in {64,94,95,96,250} (Straus/Pippenger switch at 2n+1 = 190) with one corrupted entry at first/middle/last position. distinct_nontrivial = distinct batches.",
+    "Explicit-state exploration of batch construction histories against the conjunction of RFC 8032 single verifications.",
+    "DESIGN.md section 4, C13",
+    "explicit-state BFS over batch histories against a reference model",
+    lambda tier: [R("simd")] if tier == "quick" else [R("simd"), R("simd", dispatch="serial"), R("serial32"), R("fiat64"), R("avx512")],
+)
+
+PROPS["C15"] = _std(
+    "exploration",
+    "every decoding / verifying entry point x its adversarial alphabet under catch_unwind, on the release and on the checked (overflow-checks + debug-assertions) profile: slice decoders on every length 0..=70, PKCS#8/SPKI documents with every byte mutated and every truncation, 32-byte decoders on the Edwards/Ristretto/Montgomery encoding alphabets, "
+    "hash-to-group/scalar maps driven through an identity digest onto the algebraically exceptional preimages solved by the model, the bit-string ladder with empty/huge iterators, all verifiers on an adversarial (key, R, S, context-length) product incl. contexts of 256/257/1000 bytes, verify_batch on the corruption space. "
+    "Oracle: no panic; malformed => None/Err; total constructors succeed. distinct_nontrivial = calls made.",
+    "Exhaustive over structured adversarial alphabets for every untrusted-input entry point, on both build profiles.",
+    "DESIGN.md section 4, C15",
+    "exhaustive adversarial-alphabet enumeration under catch_unwind on release and checked builds",
+    lambda tier: [R("simd"), R("simd", "chk")] if tier == "quick" else
+                 [R("simd"), R("simd", "chk"), R("serial32"), R("serial32", "chk"), R("serial64", "chk"), R("fiat64", "chk"), R("fiat32", "chk"), R("avx512", "chk"), R("simd", "rel-legacy")],
+)
+
+PROPS["C17"] = _std(
+    "exploration",
+    "Field/PrimeField methods on the scalar alphabet (sqrt vs Euler criterion incl. constructed residues and non-residues, invert, sqrt_ratio, from_repr / from_repr_vartime around l, to_repr, bits), advertised constants against their defining relations (the model carries and checks the factorisation of l-1 to decide primitivity of the generator), "
+    "GroupEncoding of EdwardsPoint / SubgroupPoint / RistrettoPoint on the encoding alphabets, CofactorGroup on every a*B+T_j (into_subgroup <=> torsion-free, clear_cofactor = [8]P), SubgroupPoint arithmetic, Group::random with a scripted RNG. distinct_nontrivial = cases.",
+    "Exhaustive over structured alphabets against Z/lZ and the Edwards/Ristretto models.",
+    "DESIGN.md section 4, C17",
+    "exhaustive alphabet enumeration against the reference model",
+    lambda tier: [R("simd")] if tier == "quick" else [R("simd"), R("simd", dispatch="serial"), R("serial32"), R("fiat32"), R("fiat64"), R("avx512")],
+)
